@@ -37,6 +37,7 @@ type c29World struct {
 	r    *mon.Rand
 	head *block.Block
 	rnd  int64
+	gen  func(bc *world.BlockCtx, k int) *transaction.Transaction // nil = genTxn (senders: the world's clients)
 }
 
 func (cw *c29World) nextNonce(bc *world.BlockCtx, id string) int64 {
@@ -80,7 +81,12 @@ func (cw *c29World) build(m int, withMB bool) *block.Block {
 	tries := 0
 	for len(bc.B.Txns) < m && tries < 6*m+6 {
 		tries++
-		t := cw.genTxn(bc, tries)
+		var t *transaction.Transaction
+		if cw.gen != nil {
+			t = cw.gen(bc, tries)
+		} else {
+			t = cw.genTxn(bc, tries)
+		}
 		if _, err := bc.Exec(t); err != nil {
 			continue
 		}
@@ -848,4 +854,7 @@ func c29Child(run *mon.Run, tier, name string) {
 		validateChecks(run, cw, b, js, bi)
 		run.Checkpoint()
 	}
+	// received blocks carried through the whole path a verifying miner runs (c29recv.go); last, because it installs the
+	// miner chain and switches the chain's client signature scheme
+	c29ReceivePath(run, cw, tier, name)
 }
